@@ -55,6 +55,14 @@ pub fn alloc_limit(limit: usize) {
 	}
 	let _ = limit;
 }
+/// size of the concrete blocks the allocation ghost hands out (set before the code under test)
+pub fn alloc_block(n: usize) {
+	#[cfg(kani)]
+	unsafe {
+		stubs::ALLOC_BLOCK = n;
+	}
+	let _ = n;
+}
 pub fn alloc_reset() {
 	#[cfg(kani)]
 	unsafe {
@@ -89,6 +97,16 @@ pub mod native_alloc {
 	}
 	#[global_allocator]
 	static A: Counting = Counting;
+}
+
+/// number of hashes computed so far (ghost under Kani; natively not observable: 0)
+pub fn hash_calls() -> usize {
+	#[cfg(kani)]
+	unsafe {
+		return stubs::COMPRESS_CALLS;
+	}
+	#[cfg(not(kani))]
+	0
 }
 
 /// One of the four chain types, chosen by a symbolic byte.
@@ -172,6 +190,11 @@ pub mod stubs {
 		}
 	}
 
+	// ---- E9: the clock is an input; nothing the harnesses assert depends on it
+	pub fn system_time_now() -> std::time::SystemTime {
+		std::time::UNIX_EPOCH
+	}
+
 	// ---- E14: zeroize's compiler barrier is inline asm with no data effect
 	pub fn optimization_barrier<T: ?Sized>(_v: &T) {}
 
@@ -195,7 +218,12 @@ pub mod stubs {
 	const _: () = assert!(core::mem::size_of::<B2Mirror>() == core::mem::size_of::<b2::blake2b::Blake2b>());
 	use ::blake2 as b2;
 
+	/// ghost: number of compression-function calls (== number of single-block hashes computed)
+	pub static mut COMPRESS_CALLS: usize = 0;
 	pub fn blake2b_compress_mix(st: &mut b2::blake2b::Blake2b, f0: u64, f1: u64) {
+		unsafe {
+			COMPRESS_CALLS += 1;
+		}
 		let s: &mut B2Mirror = unsafe { &mut *(st as *mut b2::blake2b::Blake2b as *mut B2Mirror) };
 		let m = &s.m;
 		let mut acc = s.t ^ f0 ^ f1.rotate_left(1);
@@ -319,7 +347,7 @@ pub mod stubs {
 	// queries exceed 10 GB). Requests above ALLOC_BLOCK are cut off after the assertion.
 	pub static mut ALLOC_MAX: usize = 0;
 	pub static mut ALLOC_LIMIT: usize = usize::MAX;
-	pub const ALLOC_BLOCK: usize = 4096;
+	pub static mut ALLOC_BLOCK: usize = 4096;
 	unsafe fn note(size: usize) {
 		if size > ALLOC_MAX {
 			ALLOC_MAX = size;
@@ -419,6 +447,11 @@ macro_rules! proof {
 			#[cfg_attr(kani, kani::stub(grin_util::secp::aggsig::verify_batch, crate::secp_model::verify_batch))]
 			#[cfg_attr(kani, kani::stub(grin_util::secp::Secp256k1::verify_bullet_proof_multi, crate::secp_model::verify_bullet_proof_multi))]
 			#[cfg_attr(kani, kani::stub(zeroize::barrier::optimization_barrier, crate::env::stubs::optimization_barrier))]
+		] $($rest)* }
+	};
+	( @acc [clock, $($g:ident,)*] [$($a:tt)*] $($rest:tt)* ) => {
+		$crate::proof! { @acc [$($g,)*] [$($a)*
+			#[cfg_attr(kani, kani::stub(std::time::SystemTime::now, crate::env::stubs::system_time_now))]
 		] $($rest)* }
 	};
 	( @acc [zeroize, $($g:ident,)*] [$($a:tt)*] $($rest:tt)* ) => {
